@@ -478,6 +478,7 @@ static int vf_space_run(const char *name, uint64_t N, vf_case_fn fn, void *ctx)
         }
         return 1;
     }
+    if (getenv("VF_ONLY") && !strstr(name, getenv("VF_ONLY"))) { vf_cap("space %s skipped by VF_ONLY (debugging aid)", name); return 0; }
     int si = vf->nspaces < VF_MAXSPACES ? vf->nspaces++ : VF_MAXSPACES - 1;
     snprintf(vf->spaces[si].name, 64, "%s", name);
     vf->spaces[si].size = N; vf->spaces[si].done = 0; vf->spaces[si].complete = 0;
@@ -491,18 +492,26 @@ static int vf_space_run(const char *name, uint64_t N, vf_case_fn fn, void *ctx)
     memset((void *)vf->w, 0, sizeof vf->w);
     fflush(stdout); fflush(stderr);
     int alive = 0;
+    pid_t wpid[VF_MAXW];      /* parent-private: a worker with wild writes (the very defects being hunted) must not be able to corrupt it */
+    memset(wpid, 0, sizeof wpid);
     for (int wi = 0; wi < W; wi++) {
         pid_t p = fork();
         if (p == 0) { vf_worker_loop(wi, name, N, fn, ctx, chunk); _exit(0); }
-        vf->w[wi].pid = p; alive++;
+        wpid[wi] = p; alive++;
     }
     while (alive > 0) {
         int st; pid_t r = waitpid(-1, &st, WNOHANG);
+        if (r < 0 && errno == ECHILD) {
+            /* no children left although some were still counted: never spin; account for it loudly */
+            vf_harderr("engine lost track of %d worker(s) in space %s", alive, name);
+            break;
+        }
         if (r > 0) {
-            int wi; for (wi = 0; wi < W; wi++) if (vf->w[wi].pid == r) break;
-            if (wi == W) continue;
+            int wi; for (wi = 0; wi < W; wi++) if (wpid[wi] == r) break;
+            if (getenv("VF_DEBUG")) fprintf(stderr, "[vf] reaped pid %d slot %d status %x alive %d\n", (int)r, wi == W ? -1 : wi, st, alive);
+            if (wi == W) { if (getenv("VF_DEBUG")) { fprintf(stderr, "[vf] unknown pid; slots:"); for (int q = 0; q < W; q++) fprintf(stderr, " %d(busy %d cur %lld)", (int)wpid[q], vf->w[q].busy, (long long)vf->w[q].cur); fprintf(stderr, " next=%lld nviol=%d stop=%d\n", (long long)vf->next, vf->nviol, vf->stop); } continue; }
             alive--;
-            vf->w[wi].pid = 0;
+            wpid[wi] = 0;
             if (!(WIFEXITED(st) && WEXITSTATUS(st) == 0)) {
                 /* worker died inside case cur: confirm in isolation, then report */
                 uint64_t idx = (uint64_t)vf->w[wi].cur;
@@ -522,7 +531,8 @@ static int vf_space_run(const char *name, uint64_t N, vf_case_fn fn, void *ctx)
                     if (!vf->stop) {
                         pid_t p = fork();
                         if (p == 0) { vf_worker_loop(wi, name, N, fn, ctx, chunk); _exit(0); }
-                        vf->w[wi].pid = p; alive++;
+                        wpid[wi] = p; alive++;
+                        if (getenv("VF_DEBUG")) fprintf(stderr, "[vf] replacement pid %d slot %d alive %d\n", (int)p, wi, alive);
                     }
                 } else {
                     vf_harderr("worker died outside a case: %s", what);
@@ -533,11 +543,11 @@ static int vf_space_run(const char *name, uint64_t N, vf_case_fn fn, void *ctx)
             int64_t now = vf_now_ms();
             for (int wi = 0; wi < W; wi++) {
                 vf_wslot_t *s = &vf->w[wi];
-                if (s->pid && s->busy && s->started_ms && (now - s->started_ms) / 1000.0 > vf_hang_s) {
+                if (wpid[wi] && s->busy && s->started_ms && (now - s->started_ms) / 1000.0 > vf_hang_s) {
                     uint64_t idx = (uint64_t)s->cur;
-                    kill(s->pid, SIGKILL);
-                    int st3; waitpid(s->pid, &st3, 0);
-                    alive--; s->pid = 0;
+                    kill(wpid[wi], SIGKILL);
+                    int st3; waitpid(wpid[wi], &st3, 0);
+                    alive--; wpid[wi] = 0;
                     int st2 = vf_isolated(name, idx, fn, ctx, vf_hang_s * 3);
                     if (st2 == -1) {
                         const char *key = "hang";
@@ -551,7 +561,7 @@ static int vf_space_run(const char *name, uint64_t N, vf_case_fn fn, void *ctx)
                     if (!vf->stop) {
                         pid_t p = fork();
                         if (p == 0) { vf_worker_loop(wi, name, N, fn, ctx, chunk); _exit(0); }
-                        s->pid = p; alive++;
+                        wpid[wi] = p; alive++;
                     }
                 }
             }
